@@ -39,6 +39,9 @@ def run(ctx):
                 'EIO / EISDIR / ValueError, or the file vanishes between lookup and open: a Response or a non-breaking 403/404, nothing else'),
         Ob('conditional', 'ob_conditional', '', packed=[('mt', 3), ('ims_rel', 5), ('timeout_i', 3)], timeout=tmo,
            desc='If-Modified-Since = mtime + {-2..2} s: at/after -> 304 empty, before -> 200 with the file; caching disabled -> 200'),
+        Ob('faithful', 'ob_faithful', '', packed=[('name_i', 10), ('order', 2), ('via', 2)], timeout=tmo, confirm='confirm_faithful',
+           desc='10 relative names (non-NFC file and directory names next to their precomposed twins with other content, names present in one / both of two unrelated static applications) '
+                'requested from both applications in either order, twice, through the client and through the endpoint: each application answers from its own search directories only, byte for byte'),
         Ob('roundtrip', 'ob_roundtrip', '', packed=[('file_i', 4)], timeout=tmo,
            desc='a conditional request carrying the Last-Modified value the server sent is answered 304 without body'),
         Ob('binary', 'ob_binary', '', packed=[('b1', 9), ('b0', 257)], cells=[('b1_%d' % k, [{'b1': k}]) for k in range(9)], timeout=tmo,
